@@ -1,5 +1,5 @@
-(* interp_correct is FALSE without names_apart: the evaluator model refuses programs the reference semantics passes
-   (and passes one the reference fails).  By computation on the witness programs of Back/InterpWitness. *)
+(* interp_correct is FALSE without names_apart (dynamic scoping): the evaluator model refuses programs the reference
+   semantics passes (and passes one the reference fails).  By computation on the witness programs of Back/InterpWitness. *)
 From Coq Require Import ZArith NArith List Bool.
 From NV Require Import Lang.Ast Lang.Ref Back.InterpSem Driver.ShadowGate Back.NamesApart Back.InterpCorrect Back.InterpWitness.
 Import ListNotations.
@@ -23,8 +23,16 @@ Ltac refute_tac :=
 Lemma refuted_spec_8_1 : refutes sp81 60.
 Proof. refute_tac. Qed.
 
-Lemma refuted_block_exit : refutes spblk 60.
+Lemma refuted_param : refutes sp81p 60.
 Proof. refute_tac. Qed.
+
+(* block scoping (fix 9481a65): the inner `let x` ends with its block; the program is inside names_apart and the evaluator
+   model prints what the reference prints ("2" then "1") and passes *)
+Lemma block_shadowing_agrees :
+  names_apart spblk = true /\
+  exists rs sk stk, run_interp 60 spblk [] = TDone rs sk stk /\ all_passed rs = true /\ map tr_out rs = [[50; 10; 49; 10]]%N /\
+  ref_tests 60 spblk = Some [(2%N, Ok (CNormal, []) [50; 10; 49; 10]%N)].
+Proof. split; [vm_compute; reflexivity|]. eexists _, _, _. repeat split; vm_compute; reflexivity. Qed.
 
 (* the gate errs in the other direction too: the reference FAILS the assertion (h) == 20, the evaluator passes it *)
 Lemma unsound_pass_spec_8_1 :
